@@ -370,6 +370,11 @@ def run(ctx: Ctx) -> int:
 	from harness import srcmodel
 	from harness.checks.c07 import mutate
 	quick = ctx.quick
+	# the engine conformance (TLC on GramEngine.tla, single-threaded) runs beside the sentence sweep
+	from concurrent.futures import ThreadPoolExecutor
+	from harness import engine_binding
+	side = ThreadPoolExecutor(max_workers=1)
+	engine_job = side.submit(engine_binding.run, ['GramEngine_1', 'GramEngine_2'] if quick else ['GramEngine_1', 'GramEngine_2', 'GramEngine_3'])
 	cases = []
 	for n in ([1, 2] if quick else [1, 2, 3]):
 		res = tlc.run('OwnGramEmit', f'OwnGram_{n}.cfg', workers=1, timeout=2400)
@@ -426,6 +431,15 @@ def run(ctx: Ctx) -> int:
 	for f in failures:
 		groups.setdefault(f'{f["clause"]}:{f["kind"]}', []).append(f)
 	violations = []
+	# the engine itself against its specification (spec/GramEngine.tla) on generated grammars x sentences
+	efailures, estats = engine_job.result()
+	ctx.log(f'engine: {estats["pairs"]} (grammar, sentence) pairs of {estats["grammars"]} generated grammars: verdict and tree equal those of GramEngine.tla; {estats["spin_confirmed"]}/{estats["spin_pairs_sampled"]} predicted non-returns confirmed; {len(efailures)} discrepancies')
+	egroups: dict[str, list] = {}
+	for f in efailures:
+		egroups.setdefault(f'{f["clause"]}:{f["kind"]}', []).append(f)
+	for key, fs in sorted(egroups.items()):
+		s = min(fs, key=lambda f: len(f['detail']))
+		violations.append(Violation(key, s['clause'], f'{s["detail"]} ({len(fs)} pairs)', {'src': s['src'], 'all': sorted({f['src'] for f in fs})[:40]}))
 	for key, fs in sorted(groups.items()):
 		s = min(fs, key=lambda f: len(f['text']))
 		violations.append(Violation(key, s['clause'], f'{s["detail"]} ({len(fs)} sentences)', {'text': s['text'], 'all': sorted({f['text'] for f in fs})[:40]}))
@@ -437,6 +451,7 @@ def run(ctx: Ctx) -> int:
 		'statement_sentences': len(stmt_cases),
 		'mutated_sentences': len(mutants),
 		'slow_sentences_decided_alone': len(slow),
+		'engine_conformance': estats,
 		'exhaustive': True,
 		'samples': [cases[len(cases) // 2]['text'], stmt_cases[5]['text'], mutants[3]['text']],
 	}
